@@ -115,6 +115,11 @@ class Run:
         shutil.rmtree(self.build, ignore_errors=True)
         self.dyn = os.path.join(self.build, 'dyn')
         os.makedirs(self.dyn)
+        rp = os.path.join(VERIF, 'replay')
+        if os.path.isdir(rp):
+            for f in os.listdir(rp):
+                if f.startswith(prop + '-'):
+                    os.remove(os.path.join(rp, f))
         self.obl = []          # (name, ok, detail)
         self.corr = {}         # suite -> stats
         self.search = {}       # name -> stats (labelled test)
@@ -165,20 +170,28 @@ class Run:
     def dyn_compile(self, names, timeout=300):
         """copy coq/Dyn/<name>.v (or take an already generated dyn/<name>.v) and compile in order; one obligation each"""
         allok = True
+        failed = set(getattr(self, '_dyn_failed', set()))
         for n in names:
             dst = os.path.join(self.dyn, n + '.v')
             src = os.path.join(COQ, 'Dyn', n + '.v')
             if os.path.exists(src):
                 shutil.copy(src, dst)
-            if not allok:
-                self.oblige('dyn:' + n, False, 'not compiled: an earlier file of its cone failed')
+            deps = set()
+            for m in re.finditer(r'From Dyn Require Import ([^.]*)\.', open(dst).read()):
+                deps.update(m.group(1).split())
+            if deps & failed:
+                self.oblige('dyn:' + n, False, 'not compiled: depends on ' + ', '.join(sorted(deps & failed)))
+                failed.add(n); allok = False
                 continue
             rc, out = self.coqc(dst, timeout)
             ok = rc == 0
             if ok:
                 self._assumptions(n, out)
+            else:
+                failed.add(n)
             self.oblige('dyn:' + n, ok, '' if ok else out[-1500:])
             allok = allok and ok
+        self._dyn_failed = failed
         return allok
 
     def _assumptions(self, name, out):
